@@ -143,8 +143,12 @@ func (b *StscBox) Info(w io.Writer, specificBoxLevels, indent, indentStep string
 	level := getInfoLevel(b, specificBoxLevels)
 	if level >= 1 {
 		for i := range b.Entries {
+			sampleDescriptionID := b.singleSampleDescriptionID
+			if sampleDescriptionID == 0 {
+				sampleDescriptionID = b.SampleDescriptionID[i]
+			}
 			bd.write(" - entry[%d]: firstChunk=%d samplesPerChunk=%d sampleDescriptionID=%d",
-				i+1, b.Entries[i].FirstChunk, b.Entries[i].SamplesPerChunk, b.GetSampleDescriptionID(i+1))
+				i+1, b.Entries[i].FirstChunk, b.Entries[i].SamplesPerChunk, sampleDescriptionID)
 		}
 	}
 	return bd.err
@@ -184,7 +188,7 @@ func (b *StscBox) GetSampleDescriptionID(chunkNr int) uint32 {
 	if b.singleSampleDescriptionID != 0 {
 		return b.singleSampleDescriptionID
 	}
-	return b.SampleDescriptionID[chunkNr-1]
+	return b.SampleDescriptionID[b.findEntryNrForChunkNr(uint32(chunkNr))]
 }
 
 // SetSingleSampleDescriptionID - use this for efficiency if all samples have same sample description
